@@ -181,7 +181,8 @@ inline std::string url(Rng& r, UrlInfo* info = nullptr) {
   } else if (sc == 4) {
     I.scheme_class = 1;
     s = rand_case(r, "file"); s += ":";
-    switch (r.below(6)) { case 0: s += "///"; break; case 1: s += "//" + host(r, &I.host_kind); break; case 2: s += "/"; break; case 3: s += ""; break; case 4: s += "//localhost"; break; default: s += "//"; }
+    switch (r.below(6)) { case 0: s += "///"; break; case 1: s += "//" + host(r, &I.host_kind); break; case 2: s += "/"; break; case 3: s += ""; break; case 4: { static const char* L[] = {"localhost", "LOCALHOST", "Localhost", "loc%61lhost", "%6Cocalhost", "\xEF\xBD\x8C" "ocalhost", "localhost.", "localhos"}; s += "//" + std::string(r.pick(L)); break; }   // spellings that normalise (or nearly) to localhost
+      default: s += "//"; }
     if (r.chance(1, 3)) { s += "/"; s += std::string(1, char('A' + r.below(26))); s += (r.coin() ? ":" : "|"); }
     s += path(r, true);
   } else if (sc <= 6) {
